@@ -121,6 +121,9 @@ def run_shard(shard):
                                      paths.render(segs, sep, style), "q")
         if di == lo:
             st.sample({"doc": text, "op": "create", "path": "/a/z[2]"})
+    if lo == 0:
+        set_member_family(st)
+        value_family(st)
     return st
 
 
@@ -227,6 +230,91 @@ def punct_create_paths(spec):
                     walk(v, prefix + (("key", k),))
     walk(spec, ())
     return out
+
+
+SET_CREATE = [
+    ("s: !!set {? x, ? y}\nk: v\n", "/s/z", {"s": {"x", "y", "z"}, "k": "v"}),
+    ("s: !!set {? x, ? y}\nk: v\n", "s.z", {"s": {"x", "y", "z"}, "k": "v"}),
+    ("a:\n  s: !!set {? x}\n", "/a/s/z", {"a": {"s": {"x", "z"}}}),
+    ("s: !!set {}\nk: v\n", "/s/z", {"s": {"z"}, "k": "v"}),
+]
+
+
+def _plain(node):
+    if corpus.is_map(node):
+        return {str(k): _plain(v) for k, v in node.items()}
+    if corpus.is_list(node):
+        return [_plain(v) for v in node]
+    if corpus.is_set(node):
+        return set(str(m) for m in node)
+    val = corpus.plain_scalar(node)
+    return val[1] if isinstance(val, tuple) and len(val) == 2 else val
+
+
+ODD_VALUES = ["{}", "{'k': 1}", "0x10", "false", "[]", "5", "2.5", "true", "q",
+              "[1, 2]", "1_000", "None", "...", "", " ", 7, True, None, 2.0,
+              10.0]
+
+
+def value_family(st):
+    """Differential: creating a leaf with a value gives what overwriting an
+    existing leaf with that value gives (same data, same type, or the same
+    YAML Path error) - whatever Python literal the value's text resembles."""
+    for value in ODD_VALUES:
+        for ptext in ("b", "b.c", "/l[0]", "/a/z[1]/y"):
+            st.evaluations += 1
+            st.transitions += 1
+            st.validated += 1
+            case = {"doc": "a: {}\n", "op": "create-value", "path": ptext,
+                    "segs": None, "value": value}
+            fresh = corpus.load("a: {}\n")
+            res1, det1 = editrun.apply_set(fresh, ptext, value,
+                                           mustexist=False)
+            # the same path, pre-existing with a placeholder leaf
+            prior = corpus.load("a: {}\n")
+            editrun.apply_set(prior, ptext, "placeholder", mustexist=False)
+            res2, det2 = editrun.apply_set(prior, ptext, value,
+                                           mustexist=True)
+            st.outcomes["create-value:" + res1] += 1
+            if res1 == "crash" or res2 == "crash":
+                st.fail("create|value|crash:%s" % (det1 or det2), case,
+                        "a value or a YAML Path error",
+                        "create: %s %s / overwrite: %s %s" % (
+                            res1, det1, res2, det2))
+                continue
+            st.states += 1
+            st.sig("create-value", repr(value), ptext, res1)
+            a = corpus.canon(fresh, anchors=False)
+            b = corpus.canon(prior, anchors=False)
+            if (res1, det1) != (res2, det2) or (res1 == "ok" and a != b):
+                st.fail("create|value|differs-from-overwrite", case,
+                        "%s %s %r" % (res2, det2, b),
+                        "%s %s %r" % (res1, det1, a))
+
+
+def set_member_family(st):
+    """Creating a missing member of a set through set_value: the member's
+    value can only be its own name, so that is the value supplied; the set
+    gains the member and nothing else changes."""
+    for text, ptext, want in SET_CREATE:
+        st.evaluations += 1
+        st.transitions += 1
+        st.validated += 1
+        doc = corpus.load(text)
+        case = {"doc": text, "op": "create-set-member", "path": ptext,
+                "segs": None, "value": "z"}
+        res, detail = editrun.apply_set(doc, ptext, "z", mustexist=False)
+        st.outcomes["create:" + res] += 1
+        if res != "ok":
+            st.fail("create|set-member|%s:%s" % (res, detail), case,
+                    repr(want), "%s %s" % (res, detail))
+            continue
+        st.states += 1
+        st.sig("create-set-member", text, ptext)
+        got = _plain(doc)
+        if got != want:
+            st.fail("create|set-member|wrong-document", case, repr(want),
+                    repr(got))
 
 
 def expect_created(doc0, segs, vcanon):
@@ -342,6 +430,16 @@ def check_create(st, doc0, text, shp, segs, ptext, value):
 
 def replay(case):
     st = core.Stats(None)
+    if case["op"] in ("create-set-member", "create-value"):
+        set_member_family(st)
+        value_family(st)
+        for lst in st.fails.values():
+            for f in lst:
+                if f["case"]["doc"] == case["doc"] and \
+                        f["case"]["path"] == case["path"] and \
+                        f["case"].get("value") == case.get("value"):
+                    return f
+        return None
     doc = corpus.load(case["doc"])
     if case["op"] == "query":
         segs = None
